@@ -971,6 +971,14 @@ class Interp:
         if st.orelse:
             raise _nt(st, '(for/else)')
         lst = self.resolve(self.ev(st.iter, env))
+        if isinstance(lst, tuple) and len(lst) <= 8 and not any(isinstance(n, (ast.Break, ast.Continue)) for b in st.body for n in ast.walk(b)):
+            # a loop over a literal tuple written in place (a small table that drives the statements): one run of the body per entry
+            for item in lst:
+                self.bind(st.target, item, env)
+                r = self.run(st.body, env)
+                if r is not None:
+                    return r
+            return None
         if not isinstance(lst, ListOf):
             raise _nt(st, '(loop over non-list %r)' % (lst,))
         if lst.item is None:
